@@ -43,6 +43,8 @@ def check_one(typ, inp, svc):
     own = docs.TYPES[typ][0]
     bad = []
     seen = set()
+    dd = values(inp, "Quadlet", "DefaultDependencies")
+    defaults_on = (not dd) or dd[-1] == "" or dd[-1].strip() in ("1", "yes", "true", "on")
     for sec, es in inp:
         if sec in (own, "Quadlet", "X-" + own, "X-Quadlet"):
             continue  # the own sections are covered by the X-<name> clause below
@@ -65,6 +67,11 @@ def check_one(typ, inp, svc):
                 bad.append((None, "[%s] %s: user values %s are not kept in order in %s" % (sec, key, uv, sv)))
                 continue
             pre, post = sv[:pos], sv[pos + len(uv):]
+            if sec == "Unit" and key in GEN_UNIT_PRE and defaults_on and "network-online.target" not in uv:
+                # the default dependency comes BEFORE the user's entries, so that the user keeps the last word
+                if pre != ["network-online.target"] or "network-online.target" in post:
+                    bad.append((None, "[Unit] %s: the default network-online.target must precede the user's %s, generated %s" % (key, uv, sv)))
+                    continue
             allowed_pre = sec == "Unit" and key in GEN_UNIT_PRE
             allowed_post = (sec == "Unit" and key in GEN_UNIT_POST) or (sec == "Service" and (key in GEN_SERVICE_POST or key in MANAGED))
             if pre and not (allowed_pre and pre == ["network-online.target"]):
